@@ -13,7 +13,7 @@ import (
 
 func init() {
 	register("C10", propMeta{
-		Explanation: "Decides which data each deletion site can delete and that decode failures surface: (R1) who-may-delete table: the BlobStore.Remove / Registry.Remove call sites of package common are exactly the seven known deletion functions, and each deletion function is called only from its justified callers (live rollback, post-commit cleanup, dead-transaction log replay); (R2) deletions of data a committed state may reference happen only behind the commit point: in phase2Commit the cleanup is unreachable from the failure edge of the all-or-nothing registry update, and the log replay re-runs deleteObsoleteEntries / deleteTrackedItemsValues only when the dead transaction's last logged step shows it had passed the commit point; (R3) the node blobs declared obsolete after a commit are the post-flip INACTIVE ids of the updated handles and the ACTIVE ids (plus logical ids) of the removed handles, taken from the slices returned by activateInactiveNodes / touchNodes; (R4) value blobs: itemActionTracker.manage queues the old value id for deletion only on the path on which the item is re-keyed with a fresh id before its new value is written, so the live id is never queued; the deletion queue is reset only by getForRollbackTrackedItemsValues, which phase1Commit invokes in every attempt before (re)staging values - the ids queued by an abandoned attempt or by the merge replay are thereby dropped before they can reach cleanup; (R5) decode failures on the read path are reported, not swallowed: every Unmarshal reachable in nodeRepositoryBackend.get and itemActionTracker.Get has its error returned.",
+		Explanation: "Decides which data each deletion site can delete and that decode failures surface: (R1) who-may-delete table: the BlobStore.Remove / Registry.Remove call sites of package common are exactly the seven known deletion functions, and each deletion function is called only from its justified callers (live rollback, post-commit cleanup, dead-transaction log replay); (R2) deletions of data a committed state may reference happen only behind the commit point: in phase2Commit the cleanup is unreachable from the failure edge of the all-or-nothing registry update, and the log replay re-runs deleteObsoleteEntries / deleteTrackedItemsValues only when the dead transaction's last logged step shows it had passed the commit point; (R3) the node blobs declared obsolete after a commit are the post-flip INACTIVE ids of the updated handles and the ACTIVE ids (plus logical ids) of the removed handles, taken from the slices returned by activateInactiveNodes / touchNodes; (R4) value blobs: itemActionTracker.manage queues the old value id for deletion only on the path on which the item is re-keyed with a fresh id before its new value is written, so the live id is never queued; the deletion queue is reset only by getForRollbackTrackedItemsValues, which phase1Commit invokes in every attempt before (re)staging values - the ids queued by an abandoned attempt or by the merge replay are thereby dropped before they can reach cleanup; (R6) the undo functions that cannot tell own from foreign state run only under a strict guard that implies the step succeeded for this transaction (shared with C37.R4); (R5) decode failures on the read path are reported, not swallowed: every Unmarshal reachable in nodeRepositoryBackend.get and itemActionTracker.Get has its error returned.",
 		DoesNotCover: "That every id a deletion function receives at run time is unreferenced (a property of histories) is not decided; crash points are not enumerated (C08).",
 	}, runC10)
 	register("C11", propMeta{
@@ -145,6 +145,8 @@ func runC10(c *Ctx) {
 			c.Offences(gt, offs, r2, "log replay: "+shortKey(spec.call)+" only for a transaction that had passed the commit point", ft.Decl.Pos(), "guarded by lastCommittedFunctionLog >= "+spec.step, "the replay of a dead transaction can delete its 'obsolete' entries although that transaction never reached the commit point (they are the live data)")
 		}
 	}
+
+	rootBlobBeforeHandleRule(c, r2)
 
 	r3 := c.Rule("R3", "obsolete node blobs are the post-flip inactive ids of updated handles and the active ids of removed handles", 4)
 	{
@@ -293,6 +295,9 @@ func runC10(c *Ctx) {
 		c.Check(w.Reaches(ft, func(cs *CallSite) bool { return cs.Key == "var:common.getForRollbackTrackedItemsValues" || cs.Key == "field:common.getForRollbackTrackedItemsValues" }), r4,
 			"Transaction.getForRollbackTrackedItemsValues delegates to every backend's getter", ft.Decl.Pos(), "calls the backend function value", "the transaction-level getter no longer reaches the per-store getters", nil)
 	}
+
+	r6 := c.Rule("R6", "undo functions that delete or clear whatever the registry / blob store holds under a node id (rollbackUpdatedNodes, rollbackRemovedNodes, rollbackNewRootNodes) run only in a state that implies the step succeeded for THIS transaction (shared with C37.R4): otherwise the loser of a conflict deletes the winner's committed data", 6)
+	foreignBlindUndoRule(c, r6)
 
 	r5 := c.Rule("R5", "decode failures on the read path are returned", 2)
 	decodeErrorsRule(c, r5)
